@@ -109,7 +109,7 @@ def run(tier, seed, pid="C03"):
     log("[replay] %s; verdicts %s" % (tot, tally))
     rc = v.finish()
     sample = [{"scenario": {k: obs[0][0][k] for k in ("field", "hasher", "ext", "opts")}, "tally": obs[0][1].get("tally"), "adaptive": obs[0][1].get("adaptive")}] if obs else []
-    vlib.write_evidence(pid, tier, seed, "model_checking", {
+    vlib.write_evidence(pid, tier, seed, "fault_enumeration" if pid == "C06" else "model_checking", {
         "states": states, "transitions": trans, "traces_validated_against_impl": tot["mutants_judged"],
         "samples": sample + [{"mutation_kinds": "see spec/Wire.tla: ScalarMutations, BlobMutations"}],
         "evaluations": tot["mutants_judged"], "distinct_nontrivial": tot["mutants_judged"],
